@@ -126,6 +126,67 @@ ASSUMPTIONS = [
 ]
 
 
+NEEDED = {
+    "C01": ["invoked", "seeded-not-recomputed", "outside-graph-dependency", "engine-chosen-order", "target-closure"],
+    "C02": ["invoked", "missing-reported", "rule-skip-response", "disabled", "none-argument", "group-satisfied-by-one"],
+    "C03": ["failure-recorded", "skip-recorded", "element-calls", "failing-observers", "filed-under-registry-point"],
+    "C04": ["several-subgraphs", "pool-threads", "cross-run-comparisons", "engine-chosen-order"],
+}
+
+
+def trace_features(traces):
+    """Vacuity control on the implementation side: how often the recorded executions exercised each
+    situation the properties talk about (counted from the traces, not from the cases)."""
+    f = {}
+
+    def bump(k, n=1):
+        f[k] = f.get(k, 0) + n
+    for t in traces:
+        prog = t["prog"]
+        if "/obsfail" in t["id"]:
+            bump("failing-observers")
+        drv = t["id"].split("/")[1] if "/" in t["id"] else ""
+        if drv.startswith(("run", "closure", "incr", "pool")):
+            bump("engine-chosen-order")
+        if drv.startswith("closure"):
+            bump("target-closure")
+        subs = [e for e in t["events"] if e["ev"] == "sub"]
+        if len(subs) > 1:
+            bump("several-subgraphs")
+        if len(set(e.get("w") for e in t["events"] if e["ev"] == "att")) > 1:
+            bump("pool-threads")
+        for e in t["events"]:
+            if e["ev"] == "same":
+                bump("cross-run-comparisons")
+                continue
+            if e["ev"] != "att":
+                continue
+            p = prog[e["c"] - 1]
+            if e["calls"]:
+                bump("invoked")
+                if any(c["el"] for c in e["calls"]):
+                    bump("element-calls")
+                if any(a["k"] == "none" for c in e["calls"] for a in c["args"]):
+                    bump("none-argument")
+                if p["grp"] and any(sum(1 for a in c["args"] if a["k"] != "none") < len(c["args"]) for c in e["calls"]):
+                    bump("group-satisfied-by-one")
+            if e["m"]["set"]:
+                bump("missing-reported")
+            if e["v"]["k"] == "skipresp":
+                bump("rule-skip-response")
+            if p["seeded"]:
+                bump("seeded-not-recomputed")
+            if not p["enabled"]:
+                bump("disabled")
+            if not p["ingraph"]:
+                bump("outside-graph-dependency")
+            for r in e["recs"]:
+                bump("skip-recorded" if r["kind"] == "skip" else "failure-recorded")
+                if r["under"] != r["by"] and r["under"]:
+                    bump("filed-under-registry-point")
+    return f
+
+
 def case_key(c):
     return lib.hashlib.sha1(lib.json.dumps([c["prog"], c["ss"], c.get("arch", False)], sort_keys=True).encode()).hexdigest()
 
@@ -162,12 +223,14 @@ def run(prop, tier):
     cfgp = os.path.join(gen, "DrEngineMC_sim.cfg")
     with open(cfgp, "w") as f:
         f.write(cfg_text(SIM, True, sim=True))
-    jobs.append(("sim", "DrEngineMC", cfgp, dict(simulate=max(1, nsim // 4), depth=40, tlc_seed=lib.seed() + 17,
-                                                 workers=4)))
+    # (RandomElement draws from one seeded stream: several simulation workers would emit the same cases)
+    jobs.append(("sim", "DrEngineMC", cfgp, dict(simulate=nsim, depth=40, tlc_seed=lib.seed() + 17, workers=1)))
 
     def one(job):
         name, mod, cfgp, kw = job
         kw = dict(kw)
+        if name == plan[tier][0]:
+            kw["coverage"] = True       # per-action counts (vacuity control on the model side)
         kw.setdefault("workers", max(4, lib.NCPU // 2))
         r = lib.run_tlc(mod, cfgp, tag="dr-" + name, timeout=2400, raw_cases=True, **kw)
         return name, lib.require_ok(r, "DrEngine model " + name)
@@ -178,6 +241,15 @@ def run(prop, tier):
             raw.extend((name, i, line) for i, line in enumerate(r.cases))
             r.cases = []
             models.append(r)
+    cov = models[0].coverage if models else {}
+    for m in models:
+        if m.coverage:
+            cov = m.coverage
+    # (Take / Attempt sit under the existential of Next and are reported under Next's location; Finish
+    #  is only enabled once every component was attempted, so its count stands for theirs)
+    dead = [a for a in ("Define", "StartRun", "Finish") if not cov.get(a)]
+    if dead:
+        raise lib.MachineryError("vacuous model run: actions never taken: %s (coverage %s)" % (dead, cov))
     emitted = len(raw)
     cap = (8000 if len(plan["drivers"]) > 4 else (20000 if len(plan["drivers"]) > 2 else 30000)) if tier == "quick" else (120000 if len(plan["drivers"]) > 2 else 300000)
     rng.shuffle(raw)
@@ -233,6 +305,10 @@ def run(prop, tier):
         t.pop("final", None)
         if prop != "C04":
             t["strict"] = False     # the split into sub-graphs is C04's; the other checks take it as observed
+    feats = trace_features(traces)
+    lacking = [k for k in NEEDED[prop] if not feats.get(k)]
+    if lacking:
+        raise lib.MachineryError("vacuous run: the recorded executions never exercised %s" % lacking)
     print("timing: drivers %.1fs, %d traces" % (time.time() - t1, len(traces)))
     t1 = time.time()
     val = lib.validate_traces("DrTrace", "DrTrace.cfg", traces)
@@ -287,7 +363,7 @@ def run(prop, tier):
         samples=samples, assumptions=ASSUMPTIONS,
         extra=dict(configs=plan[tier] + plan.get("model_only", {}).get(tier, []) + ["sim(%d)" % nsim],
                    distinct_programs_emitted=nprog, behaviours_emitted=emitted, behaviours_replayed=len(cases),
-                   invariants_checked_on_model=ALL_INV,
+                   invariants_checked_on_model=ALL_INV, situations_exercised_by_recorded_executions=feats,
                    other_property_rejections=other, exhaustive=False))
     return verdict.finish(ev)
 
